@@ -105,3 +105,15 @@ Fixpoint position_from (b : N) (l : list N) (i : N) : option (N * N) :=
   | [] => None
   | a :: r => if (a =? b)%N then Some (i, a) else position_from b r (i + 1)%N
   end.
+
+(* slice::chunks(n) as an iterator state (rest of the slice, n) with n >= 1: next() hands out the first n
+   elements (fewer at the end) and keeps the rest; an empty rest ends the iteration *)
+Definition chunks_head (c : list N * N) : option (list N) :=
+  match fst c with [] => None | _ :: _ => Some (firstn (N.to_nat (snd c)) (fst c)) end.
+Definition chunks_advance (c : list N * N) : list N * N := (skipn (N.to_nat (snd c)) (fst c), snd c).
+
+(* u8::to_string(): decimal digits, most significant first, no padding *)
+Definition u8_to_string (b : N) : list N :=
+  if (b <? 10)%N then [48 + b]%N
+  else if (b <? 100)%N then [48 + b / 10; 48 + b mod 10]%N
+  else [48 + b / 100; 48 + (b / 10) mod 10; 48 + b mod 10]%N.
